@@ -10,6 +10,7 @@ import Hv.Driver.Misc
 import Hv.Driver.HyperV
 import Hv.Driver.Vmx
 import Hv.Driver.Meta
+import Hv.Driver.Envelope
 open Hv Hv.Driver
 
 def dispatch (st : St) (toks : List String) : String :=
@@ -29,6 +30,7 @@ def dispatch (st : St) (toks : List String) : String :=
     else if cmd.startsWith "hyperv." then hypervCmd st toks
     else if cmd.startsWith "vmx." then vmxCmd st toks
     else if cmd.startsWith "meta." then metaCmd st toks
+    else if cmd.startsWith "env." then envelopeCmd st toks
     else "bad-cmd"
 
 partial def loop (h : IO.FS.Stream) (out : IO.FS.Stream) (st : St) : IO Unit := do
